@@ -25,6 +25,25 @@ fn chars(k: i64, n: i64) -> Vec<u8> {
     (0..n).map(|i| (33 + (k * 31 + i * 7).rem_euclid(94)) as u8).collect()
 }
 
+/// = Coq cstr: printable ASCII | every byte 1..255 in turn (invalid UTF-8) | ASCII with Latin-1 / stray continuation bytes
+fn cstr_bytes(k: i64, n: i64) -> Vec<u8> {
+    if k < 1000 {
+        chars(k, n)
+    } else if k < 2000 {
+        (0..n).map(|i| (1 + (k * 31 + i * 7).rem_euclid(255)) as u8).collect()
+    } else {
+        (0..n).map(|i| if i == n - 1 { 233u8 } else if i == n / 2 && n >= 3 { 128u8 } else { (97 + (k + i).rem_euclid(26)) as u8 }).collect()
+    }
+}
+/// = Coq blob
+fn blob(k: i64, n: i64) -> Vec<u8> {
+    if k < 1000 {
+        payload(k, n as usize)
+    } else {
+        (0..n).map(|i| (k * 31 + i * 7).rem_euclid(256) as u8).collect()
+    }
+}
+
 const DATA: i32 = 64 * 1024;
 
 fn fmt_records(rs: &[(i32, Vec<u8>)]) -> String {
@@ -86,17 +105,17 @@ fn p(s: &str) -> i64 {
 }
 
 fn cstr(b: Vec<u8>) -> CString {
-    CString::new(b).expect("no NUL in chars")
+    CString::new(b).expect("no NUL in cstr")
 }
 
 /// one request described by the words of a single-call case line without its c0
 fn call(px: &DriverProxy, a: &[&str]) -> Result<i64, AeronError> {
     match a[0] {
         "addpub" => {
-            let (excl, stream, ch) = (p(a[1]) != 0, p(a[2]) as i32, chars(p(a[3]), p(a[4])));
+            let (excl, stream, ch) = (p(a[1]) != 0, p(a[2]) as i32, cstr_bytes(p(a[3]), p(a[4])));
             if excl { px.add_exclusive_publication(cstr(ch), stream) } else { px.add_publication(cstr(ch), stream) }
         },
-        "addsub" => px.add_subscription(cstr(chars(p(a[2]), p(a[3]))), p(a[1]) as i32),
+        "addsub" => px.add_subscription(cstr(cstr_bytes(p(a[2]), p(a[3]))), p(a[1]) as i32),
         "remove" => {
             let (k, reg) = (p(a[1]), p(a[2]));
             match k {
@@ -106,7 +125,7 @@ fn call(px: &DriverProxy, a: &[&str]) -> Result<i64, AeronError> {
             }
         },
         "dest" => {
-            let (k, reg, ch) = (p(a[1]), p(a[2]), chars(p(a[3]), p(a[4])));
+            let (k, reg, ch) = (p(a[1]), p(a[2]), cstr_bytes(p(a[3]), p(a[4])));
             match k {
                 0 => px.add_destination(reg, cstr(ch)),
                 1 => px.remove_destination(reg, cstr(ch)),
@@ -115,12 +134,12 @@ fn call(px: &DriverProxy, a: &[&str]) -> Result<i64, AeronError> {
             }
         },
         "counter" => {
-            let (ty, key, label) = (p(a[1]) as i32, payload(p(a[2]), p(a[3]) as usize), chars(p(a[4]), p(a[5])));
+            let (ty, key, label) = (p(a[1]) as i32, blob(p(a[2]), p(a[3])), cstr_bytes(p(a[4]), p(a[5])));
             px.add_counter(ty, &key, cstr(label))
         },
         "keepalive" => px.send_client_keepalive().map(|_| 0),
         "close" => px.client_close(),
-        "terminate" => px.terminate_driver(&payload(p(a[1]), p(a[2]) as usize)).map(|_| 0),
+        "terminate" => px.terminate_driver(&blob(p(a[1]), p(a[2]))).map(|_| 0),
         other => panic!("unknown case kind {}", other),
     }
 }
